@@ -22,7 +22,8 @@ Inductive sop :=
 | ORvNear (dist : float) (tape : list float) (near : list float) | ORvGauss (sd : float) (tape : list float) (mean : list float)
 | OSo2Near (dist u near : float) | OSo2Gauss (sd g mean : float)
 | OReparam (s u : float) (a b : fsv) | OGeo (t : float) (a b : fsv)
-| ONear (dist : float) (tape : list float) (near : fsv) | OGauss (sd : float) (tape : list float) (mean : fsv).
+| ONear (dist : float) (tape : list float) (near : fsv) | OGauss (sd : float) (tape : list float) (mean : fsv)
+| ORng (kind : nat) (a b c v : float).     (* RNG::uniformReal / uniformInt / halfNormalReal / halfNormalInt / gaussian on one variate *)
 
 Definition rv_bounds (sp : fspace) : list (float * float) := match sp with RV _ bs => bs | _ => [] end.
 Definition run_op (sp : fspace) (o : sop) : list float :=
@@ -44,5 +45,13 @@ Definition run_op (sp : fspace) (o : sop) : list float :=
   | ONear d tape near => flat (fst (sample_near sp near d tape))
   | OGauss sd tape mean => flat (fst (sample_gauss sp mean sd tape))
   | OGeo t a b => [distance FlA sp a (interpolate FlA sp a b t); t * distance FlA sp a b]
+  | ORng k a b c v =>
+    match k with
+    | 0%nat => [uniform_real FlA a b v]
+    | 1%nat => [uniform_int FlA a b v]
+    | 2%nat => [half_normal_real FlA PrimFloat.div a b c v]
+    | 3%nat => [half_normal_int FlA PrimFloat.div a b c v]
+    | _ => [gaussian FlA a b v]
+    end
   end.
 Definition run_ops (sp : fspace) (ops : list sop) : list (list float) := map (run_op sp) ops.
